@@ -112,7 +112,7 @@ func queryDiff(want, got vdav.CardQuery) string {
 			return "is-not-defined"
 		case len(w.TMs) != len(g.TMs):
 			return "text-match-count"
-		case len(w.TMs) > 0 && normTest(w.Test) != normTest(g.Test):
+		case normTest(w.Test) != normTest(g.Test): // also without children: the statement lists the test among what must not be dropped
 			return "prop-test"
 		case len(w.Params) != len(g.Params):
 			return "param-filter-count"
